@@ -131,6 +131,7 @@ func checkC18(c *Ctx, r *Report) {
 	}
 	// node-name format agreement
 	formats := map[string][]string{}
+	perFn := map[string]int{}
 	for _, fr := range []struct{ dir, recv, name string }{{"Graph", "GraghNode", "GenDotGraph"}, {"Graph", "", "AddEdge"}, {"LALR", "LALR1", "DrawGrammar"}} {
 		f := c.need(r, "C18.b", fr.dir, fr.recv, fr.name)
 		if f == nil {
@@ -142,6 +143,7 @@ func checkC18(c *Ctx, r *Report) {
 				if fn := callee(info, call); fn != nil && fn.FullName() == "fmt.Sprintf" && len(call.Args) == 2 {
 					if s, ok := constString(info, call.Args[0]); ok && strings.Contains(s, "state_") {
 						formats[s] = append(formats[s], f.Name+"("+exprString(call.Args[1])+")")
+						perFn[f.Name]++
 					}
 				}
 			}
@@ -152,7 +154,37 @@ func checkC18(c *Ctx, r *Report) {
 	for _, v := range formats {
 		n += len(v)
 	}
-	r.Check(len(formats) == 1 && n >= 5, "C18.b", "R10 SIBLING-SITES", "Graph+LALR/node-name-format", "Graph/Graph.go, LALR/LALRDraw.go",
+	sitesOK := perFn["Graph.(*GraghNode).GenDotGraph"] >= 1 && perFn["Graph.AddEdge"] >= 2 && perFn["LALR.(*LALR1).DrawGrammar"] >= 1
+	// every node looked up by the diagram code is named through that format (written in place or held in a local)
+	if f := c.Func("LALR", "LALR1", "DrawGrammar"); f != nil {
+		cf := newCoverFn(f)
+		lookups := 0
+		ast.Inspect(f.Decl.Body, func(nd ast.Node) bool {
+			ix, ok := nd.(*ast.IndexExpr)
+			if !ok || !fieldNamed(cf.info, ix.X, "Lookup") {
+				return true
+			}
+			lookups++
+			call, ok := cf.resolve(ix.Index).(*ast.CallExpr)
+			if !ok {
+				sitesOK = false
+				return true
+			}
+			fn := callee(cf.info, call)
+			s, isC := "", false
+			if len(call.Args) >= 1 {
+				s, isC = constString(cf.info, call.Args[0])
+			}
+			if fn == nil || fn.FullName() != "fmt.Sprintf" || !isC || !strings.Contains(s, "state_") {
+				sitesOK = false
+			}
+			return true
+		})
+		if lookups < 2 {
+			sitesOK = false
+		}
+	}
+	r.Check(len(formats) == 1 && sitesOK, "C18.b", "R10 SIBLING-SITES", "Graph+LALR/node-name-format", "Graph/Graph.go, LALR/LALRDraw.go",
 		fmt.Sprintf("all %d places that name a state's node use the one format %v", n, keysOfSS(formats)), fmt.Sprintf("state nodes are named with different formats or too few sites were found (%v): edges or annotations would attach to nodes that do not exist", formats))
 	// GenDotGraph names the node by its own state number; StateGraphNode uses IC.Index and every item
 	if f := c.need(r, "C18.b", "Grammar", "Grammar", "StateGraphNode"); f != nil {
